@@ -31,6 +31,7 @@ type Cfg struct {
 	DLQThr     int    `json:"dlq_thr"`
 	Proc       bool   `json:"proc"`
 	Workers    int    `json:"workers,omitempty"` // processor workers (>1: v1 wraps the processor in a ParallelNode)
+	Dests      int    `json:"dests,omitempty"`   // number of destinations (0/1: one; 2: the source fans out to "dst" and "dst2", arch-v2 only)
 }
 
 // Step is one step of the environment schedule.
@@ -138,6 +139,15 @@ func NewSys(cfg Cfg) (*Sys, error) {
 	}
 	if _, err := ps.AddConnector(ctx, pl.ID, "dst"); err != nil {
 		return nil, err
+	}
+	if cfg.Dests >= 2 {
+		// a second destination: the engine fans every batch out to both (funnel.Worker.doNextTask)
+		if _, err := cs.Create(ctx, "dst2", connector.TypeDestination, PluginDst2, pl.ID, connector.Config{Name: "dst2", Settings: map[string]string{}}, connector.ProvisionTypeAPI); err != nil {
+			return nil, err
+		}
+		if _, err := ps.AddConnector(ctx, pl.ID, "dst2"); err != nil {
+			return nil, err
+		}
 	}
 	if cfg.Proc {
 		if _, err := prs.Create(ctx, "proc", "fake-proc", processor.Parent{ID: pl.ID, Type: processor.ParentTypePipeline},
